@@ -342,6 +342,19 @@ MergeV(S, T, dst, src) ==
                               [] OTHER -> Go(i + 1, SetF(acc, fd, x))
     IN [Go(1, dst) EXCEPT !.u = @ \o src.u]
 
+\* remove the unknown bytes at every nesting level
+RECURSIVE Strip(_, _, _)
+Strip(S, T, v) ==
+    [f |-> [k \in DOMAIN v.f |->
+              LET fs == FieldsOf(S, T)
+                  fd == fs[CHOOSE i \in 1..Len(fs) : Key(fs[i]) = k]
+                  x  == v.f[k]
+              IN CASE fd.card \in {"one", "oneof"} /\ fd.kind = "message" -> Strip(S, fd.msg, x)
+                   [] fd.card = "rep" /\ fd.kind = "message" -> [i \in 1..Len(x) |-> Strip(S, fd.msg, x[i])]
+                   [] fd.card = "map" /\ fd.vk = "message" -> [kk \in DOMAIN x |-> Strip(S, fd.vmsg, x[kk])]
+                   [] OTHER -> x],
+     u |-> <<>>]
+
 (***************************************************************************)
 (* Normal form: what a projection of a real message always satisfies.      *)
 (***************************************************************************)
